@@ -133,7 +133,7 @@ def run(ctx):
                 found_classes[c] += 1
 
     # ---- Table.Sort driven directly
-    sorts = T.htable(["-mode", "sort", "-n", 200 * mult, "-seed", seed])
+    sorts = T.htable(["-mode", "sort", "-n", 150 * mult, "-seed", seed])
     codes = T.coq_verdicts(ctx, "c12_sort", [sort_item(c) for c in sorts])
     dist = collections.Counter()
     for c, v in zip(sorts, codes):
@@ -165,7 +165,7 @@ def run(ctx):
         if good and c["outcome"] != "ok":
             ctx.violation({"kind": "valid LIMIT rejected", "case": c})
     # ---- end to end
-    e2e = T.htable(["-mode", "e2e12", "-n", 120 * mult, "-seed", seed])
+    e2e = T.htable(["-mode", "e2e12", "-n", 100 * mult, "-seed", seed])
     ecodes = T.coq_verdicts(ctx, "c12_e2e", [e2e_item(c) for c in e2e], shard=300)
     bad_outcomes = 0
     for c, v in zip(e2e, ecodes):
@@ -187,6 +187,14 @@ def run(ctx):
                     list(dict.fromkeys(k["b"] for k in c["cfg"])):
                 cl.add("repeated_keys_map_order")
             excuse(c, cl, "ORDER BY/LIMIT result not the first rows in value order")
+    # ---- ORDER BY / LIMIT combined with GROUP BY and HAVING (aggregate outputs as keys): Exec.execute_tail
+    import c13
+    tails = T.htable(["-mode", "e2etail", "-n", 60 * mult, "-seed", seed + 1])
+    tcodes = T.coq_verdicts(ctx, "c12_tail", [c13.tail_item(c) for c in tails], imports="Reduce ReduceSpec Expr ExprSpec Exec", shard=300)
+    for c, v in zip(tails, tcodes):
+        dist["tail:%s:%s:%d" % (c["shape"], c["res"]["outcome"], v)] += 1
+        if c["base"]["outcome"] != "ok" or v != 0:
+            ctx.violation({"kind": "GROUP BY + ORDER BY + HAVING + LIMIT through the planner disagrees with Exec.execute_tail", "case": c})
     # ---- known findings: replay each open one on the implementation
     T.replay_findings(ctx, "C12", "replay12")
     # ---- coverage
@@ -196,7 +204,7 @@ def run(ctx):
         rows = c["in"] if kind == "sort" else (c["base"].get("rows") or [])
         if len(rows) >= 2 and (c.get("cfg") or c.get("limit") is not None):
             seen.add(vcheck.case_hash([kind, c.get("cfg"), c.get("limit"), rows]))
-    ctx.cov["evaluations"] = len(sorts) + len(limits) + len(toks) + len(e2e)
+    ctx.cov["evaluations"] = len(sorts) + len(limits) + len(toks) + len(e2e) + len(tails)
     ctx.cov["distinct_nontrivial"] = len(seen)
     ctx.cov["rule"] = ("sort / e2e cases counted; non-trivial = at least two input rows and an ORDER BY key or a LIMIT; distinct "
                        "by hash of (keys, limit, input rows)")
